@@ -129,6 +129,25 @@ pub enum RefOutcome {
     HarnessError(String),
 }
 
+pub const DF_NOT_IN_SIG: &str = "datafusion-inlist-simplifier-keeps-rows-where-filter-is-null";
+
+/// Attribute a deviation to DataFusion's in-list simplifier (which Lance applies to its filters):
+/// the predicate has mergeable IN / NOT IN / = / <> leaves on one column, Lance returned only extra
+/// rows, the filter is NULL (not FALSE) for each of them, and DataFusion's own complete SQL pipeline
+/// returns exactly the same rows as Lance.
+pub async fn quirk_sig(got: &BTreeSet<i64>, exp: &BTreeSet<i64>, pred: &Pred, sql: &str, m: &Model, df: &DfRef) -> Option<&'static str> {
+    if !pred.has_mergeable_inlists_same_column() || !exp.is_subset(got) || got == exp {
+        return None;
+    }
+    if !got.difference(exp).all(|id| m.rows.get(id).map(|r| eval(pred, &m.cols, r).is_none()).unwrap_or(false)) {
+        return None;
+    }
+    match df.ids_where_full_sql(sql).await {
+        Ok(b) if &b == got => Some(DF_NOT_IN_SIG),
+        _ => None,
+    }
+}
+
 pub async fn reference(pred: &Pred, sql: &str, m: &Model, df: &DfRef) -> RefOutcome {
     let a = ref_ids(pred, m);
     match df.ids_where(sql).await {
@@ -448,6 +467,7 @@ pub fn run(args: &Args) -> i32 {
                         q.projection = Some(cols);
                     }
                     let mut order_idx: Option<Vec<(usize, bool, bool)>> = None;
+                    let _ = &mut order_idx;
                     if rng.chance(1, 4) {
                         let sortable = all_cols(m);
                         let c = *rng.pick(&sortable);
@@ -494,6 +514,8 @@ pub fn run(args: &Args) -> i32 {
                     for _ in 0..2 {
                         knob_sets.push(Knobs::random(&mut rng));
                     }
+                    // size of a scan result that was attributed to the DataFusion in-list quirk (count_rows is classified alike)
+                    let mut quirk_count: Option<usize> = None;
                     let mut base_rejected: Option<bool> = None;
                     let mut executed = false;
                     for (ki, knobs) in knob_sets.iter().enumerate() {
@@ -533,6 +555,13 @@ pub fn run(args: &Args) -> i32 {
                                         }
                                     }
                                     let mut sig = if ki == 0 || v.sig.starts_with("limit-zero") { v.sig.clone() } else { format!("knobs-{}", v.sig) };
+                                    let got_set: BTreeSet<i64> = out.ids().into_iter().collect();
+                                    if q.limit.is_none() && q.offset.is_none() {
+                                        if let Some(qs) = quirk_sig(&got_set, &ids, &pred, &sql, m, &df).await {
+                                            sig = qs.to_string();
+                                            quirk_count = Some(got_set.len());
+                                        }
+                                    }
                                     // narrow class: on a legacy table the same query with use_stats(false)
                                     // conforms => the deviation is caused by statistics-based pruning
                                     if tbl.version == LanceFileVersion::Legacy && knobs.use_stats != Some(false) && !v.sig.starts_with("limit-zero") {
@@ -600,7 +629,7 @@ pub fn run(args: &Args) -> i32 {
                                 report.count("count_rows_checked", 1);
                                 if n as usize != ids.len() {
                                     report.violation(
-                                        &legacy_count_sig("count-rows-differs-from-result", stats_off_count_ok && ck.use_stats != Some(false)),
+                                        &(if quirk_count == Some(n as usize) { DF_NOT_IN_SIG.to_string() } else { legacy_count_sig("count-rows-differs-from-result", stats_off_count_ok && ck.use_stats != Some(false)) }),
                                         &format!("Scanner::count_rows = {n}, reference/result = {}", ids.len()),
                                         witness(&ck, json!({"count": n, "expected": ids.len()})),
                                     );
@@ -616,7 +645,7 @@ pub fn run(args: &Args) -> i32 {
                             Ok(n) => {
                                 if n != ids.len() {
                                     report.violation(
-                                        &legacy_count_sig("dataset-count-rows-differs-from-result", stats_off_count_ok),
+                                        &(if quirk_count == Some(n) { DF_NOT_IN_SIG.to_string() } else { legacy_count_sig("dataset-count-rows-differs-from-result", stats_off_count_ok) }),
                                         &format!("Dataset::count_rows = {n}, reference/result = {}", ids.len()),
                                         witness(&Knobs::default(), json!({"count": n, "expected": ids.len()})),
                                     );
@@ -631,7 +660,8 @@ pub fn run(args: &Args) -> i32 {
                     report.case(if executed && nontrivial { Some(fnv_str(&qshape)) } else { None });
                     if executed {
                         report.count(if nontrivial { "selective_predicates" } else { "trivial_predicates" }, 1);
-                        if nontrivial && report.want_sample() && rng.chance(1, 40) {
+                        let pick_sample = rng.chance(1, 40); // drawn unconditionally: replay determinism
+                        if nontrivial && pick_sample && report.want_sample() {
                             report.sample(json!({"table": tbl.desc, "filter": sql, "matching": ids.len(), "rows": m.len(),
                                 "projection": q.projection, "limit": q.limit, "offset": q.offset, "order": q.order,
                                 "knobs": knob_sets.iter().map(|k| k.describe()).collect::<Vec<_>>() }));
